@@ -136,10 +136,8 @@ Lemma step_set_kv_pair : forall c s L P H p kvs,
   is_parent L P -> wf_tree P -> opresent (ms_db s) P ->
   o_elements (oterase P) = state_of (ms_ac s) p -> root_of s p = oroot P ->
   (forall i, (i < length (ms_ac s))%nat -> height_of (ms_ac s) i < H) -> 0 <= H ->
-  (kvs <> [] -> match set_kv_pair c (ms_db s) H (root_of s p) kvs with
-                | COk _ r => negb (existsb (root_eqb r) (ms_roots s)) = true
-                | _ => True
-                end) ->
+  (kvs <> [] -> forall t' i, at_set_all P kvs = Some (Some t') ->
+     nth_error (ms_roots s) i <> Some (Some (thash (erase t')))) ->
   exists L', Inv c
     match set_kv_pair c (ms_db s) H (root_of s p) kvs with
     | COk d r => mk_mstate d (ms_roots s ++ [r]) (add_commit (ms_ac s) H p kvs) false
@@ -158,9 +156,7 @@ Proof.
     rewrite (tree_save_eq c _ H t' NR) in *.
     set (st := state_of (ms_ac s) p).
     assert (FR : kvs <> [] -> forall i, nth_error (ms_roots s) i <> Some (Some (thash (erase t')))).
-    { intros NE i. specialize (GF NE). apply negb_true_iff in GF.
-      destruct (at_set_all_root _ _ _ SA NE) as [t2 [E2 A2]]. inversion E2; subst t2.
-      unfold ref_of in GF. rewrite A2 in GF. cbn in GF. apply existsb_root_false. exact GF. }
+    { intros NE i. apply (GF NE t' i SA). }
     pose proof (sv_hinv c (ms_ac s) (ms_roots s) L (ms_db s) P kvs H t' st p HI (conj P0 P2) HP WP PP ST SA C1 C1' FR) as HI'.
     assert (RH : oroot (Some (stamp H true t')) = Some (snd (ref_of H true t'))).
     { cbn. rewrite aref_stamp. reflexivity. }
@@ -180,9 +176,68 @@ Proof.
     eexists. eapply (same_commit c s L None H p); eauto.
 Qed.
 
-(** one operation *)
-Lemma inv_step : forall c s L o, cfg_valid c = true -> Inv c s L ->
-  op_valid c s o = true -> op_linear_fresh c s o = true -> exists L', Inv c (mstep c s o) L'.
+(** the fresh-root guard gives the freshness fact *)
+Lemma fresh_from_roots : forall c s H p P kvs,
+  root_of s p = oroot P -> wf_tree P -> opresent (ms_db s) P ->
+  (forall rk u, In (rk, u) (rootrec (ms_db s)) -> fst rk <> H) ->
+  match set_kv_pair c (ms_db s) H (root_of s p) kvs with
+  | COk _ r => negb (existsb (root_eqb r) (ms_roots s)) = true
+  | _ => True
+  end ->
+  kvs <> [] -> forall t' i, at_set_all P kvs = Some (Some t') ->
+  nth_error (ms_roots s) i <> Some (Some (thash (erase t'))).
+Proof.
+  intros c s H p P kvs RT WP PP NR GF NE t' i SA.
+  assert (LP : load_parent (ms_db s) (root_of s p) = Some (Some P)) by (rewrite RT; apply load_parent_present; auto).
+  rewrite (set_kv_pair_eq c _ H _ P kvs _ LP SA) in GF.
+  rewrite (tree_save_eq c _ H t' NR) in GF. apply negb_true_iff in GF.
+  destruct (at_set_all_root _ _ _ SA NE) as [t2 [E2 A2]]. inversion E2; subst t2.
+  unfold ref_of in GF. rewrite A2 in GF. cbn in GF. apply existsb_root_false. exact GF.
+Qed.
+
+Lemma smap_eqb_refl : forall m, smap_eqb m m = true.
+Proof. induction m as [|[k v] m IH]; cbn; [reflexivity|]. rewrite !KeysFacts.beq_refl, IH. reflexivity. Qed.
+
+(** the changing-state guard gives it too: equal roots have equal contents *)
+Lemma fresh_from_states : forall c s L p P kvs,
+  Inv c s L -> wf_tree P -> o_elements (oterase P) = state_of (ms_ac s) p ->
+  existsb (fun a => smap_eqb (ac_state a) (apply_writes (state_of (ms_ac s) p) kvs)) (ms_ac s) = false ->
+  forall t' i, at_set_all P kvs = Some (Some t') ->
+  nth_error (ms_roots s) i <> Some (Some (thash (erase t'))).
+Proof.
+  intros c s L p P kvs [_ [HI _]] WP ST EX t' i SA X.
+  destruct (h_len _ _ _ HI) as [EL ER].
+  assert (Li : (i < length (ms_ac s))%nat) by (rewrite <- ER; apply nth_error_Some; congruence).
+  destruct (nth_error L i) as [lc|] eqn:Ei; [|apply nth_error_None in Ei; lia].
+  destruct (h_tree _ _ _ HI i lc Ei) as [Ri [Wf Si]].
+  rewrite Ri in X. inversion X as [X1].
+  destruct (lc_tree lc) as [ti|] eqn:Ti; [|discriminate]. cbn in X1. inversion X1 as [X2].
+  destruct Wf as [Fu [W _]].
+  assert (A : annot ti <> None) by (apply Fu; apply asub_refl).
+  destruct (annot ti) as [r|] eqn:Ar; [|congruence].
+  assert (Hr : snd r = thash (erase ti)) by (apply (W ti r); [apply asub_refl|exact Ar]).
+  unfold aref in X2. rewrite Ar in X2. rewrite Hr in X2.
+  assert (EE : elements (erase ti) = elements (erase t')) by (rewrite <- !helems_thash, X2; reflexivity).
+  destruct (at_set_all_spec kvs P (wf_good P WP)) as [o' [SA' [_ [E _]]]].
+  rewrite SA in SA'. inversion SA'; subst o'. cbn in E. cbn in Si. rewrite ST in E.
+  destruct (nth_error (ms_ac s) i) as [a|] eqn:Ea; [|apply nth_error_None in Ea; lia].
+  assert (T : existsb (fun a => smap_eqb (ac_state a) (apply_writes (state_of (ms_ac s) p) kvs)) (ms_ac s) = true).
+  { apply existsb_exists. exists a. split; [eapply nth_error_In; eauto|].
+    rewrite <- Si, EE, E. apply smap_eqb_refl. }
+  congruence.
+Qed.
+
+(** one operation, for either guard *)
+Lemma inv_step_gen : forall c s L o, cfg_valid c = true -> Inv c s L ->
+  op_valid c s o = true ->
+  (forall H p ms kvs, o = MCommit H p ms kvs ->
+     onat_eqb p (tip_index (ms_ac s)) = true /\
+     forall P, root_of s p = oroot P -> wf_tree P -> opresent (ms_db s) P ->
+       o_elements (oterase P) = state_of (ms_ac s) p ->
+       (forall rk u, In (rk, u) (rootrec (ms_db s)) -> fst rk <> H) ->
+       kvs <> [] -> forall t' i, at_set_all P kvs = Some (Some t') ->
+       nth_error (ms_roots s) i <> Some (Some (thash (erase t')))) ->
+  exists L', Inv c (mstep c s o) L'.
 Proof.
   intros c s L o CV IV V G. pose proof IV as [F [HI DI]].
   destruct (cfg_valid_facts c CV) as [P0 P2].
@@ -192,7 +247,7 @@ Proof.
       eapply dinv_prune; eauto. }
   destruct (h_len _ _ _ HI) as [EL ER].
   cbn [op_valid] in V. rewrite !andb_true_iff in V. destruct V as [[V0 _] Vp]. apply Z.leb_le in V0.
-  cbn [op_linear_fresh] in G. apply andb_true_iff in G. destruct G as [Gp Gf].
+  destruct (G H p ms kvs eq_refl) as [Gp Gf].
   assert (PAR : exists P, is_parent L P /\ wf_tree P /\ opresent (ms_db s) P /\
                  o_elements (oterase P) = state_of (ms_ac s) p /\ root_of s p = oroot P /\
                  (forall i, (i < length (ms_ac s))%nat -> height_of (ms_ac s) i < H)).
@@ -221,16 +276,42 @@ Proof.
       + split; [exact Sp|]. split; [|exact C1].
         unfold root_of. rewrite Rp. reflexivity. }
   destruct PAR as [P [HP [WP [PP [ST [RT C1]]]]]].
+  assert (NR : forall rk u, In (rk, u) (rootrec (ms_db s)) -> fst rk <> H).
+  { intros rk u I. destruct (d_roots _ _ _ _ DI rk u I) as [i [Li Hi]]. specialize (C1 i Li). lia. }
+  specialize (Gf P RT WP PP ST NR).
   unfold mstep. rewrite F.
-  unfold commit_result in Gf.
   destruct ms.
   - destruct kvs as [|kv kvs'].
     + cbn [mem_set_commit]. rewrite RT. eexists. eapply same_commit; eauto.
     + change (mem_set_commit c (ms_db s) H (root_of s p) (kv :: kvs')) with
-             (set_kv_pair c (ms_db s) H (root_of s p) (kv :: kvs')) in *.
-      eapply step_set_kv_pair; eauto. intros _. destruct (set_kv_pair _ _ _ _ _); auto.
-  - eapply step_set_kv_pair; eauto. intros NE. destruct kvs; [congruence|].
+             (set_kv_pair c (ms_db s) H (root_of s p) (kv :: kvs')).
+      eapply step_set_kv_pair; eauto.
+  - eapply step_set_kv_pair; eauto.
+Qed.
+
+Lemma inv_step : forall c s L o, cfg_valid c = true -> Inv c s L ->
+  op_valid c s o = true -> op_linear_fresh c s o = true -> exists L', Inv c (mstep c s o) L'.
+Proof.
+  intros c s L o CV IV V G. apply (inv_step_gen c s L o CV IV V).
+  intros H p ms kvs E. subst o. cbn [op_linear_fresh] in G. apply andb_true_iff in G. destruct G as [Gp Gf].
+  split; [exact Gp|]. intros P RT WP PP ST NR NE t' i SA.
+  apply (fresh_from_roots c s H p P kvs RT WP PP NR); auto.
+  unfold commit_result in Gf. destruct kvs as [|kv kvs']; [congruence|].
+  destruct ms.
+  - change (mem_set_commit c (ms_db s) H (root_of s p) (kv :: kvs')) with
+           (set_kv_pair c (ms_db s) H (root_of s p) (kv :: kvs')) in Gf.
     destruct (set_kv_pair _ _ _ _ _); auto.
+  - destruct (set_kv_pair _ _ _ _ _); auto.
+Qed.
+
+Lemma inv_step_changing : forall c s L o, cfg_valid c = true -> Inv c s L ->
+  op_valid c s o = true -> op_linear_changing s o = true -> exists L', Inv c (mstep c s o) L'.
+Proof.
+  intros c s L o CV IV V G. apply (inv_step_gen c s L o CV IV V).
+  intros H p ms kvs E. subst o. cbn [op_linear_changing] in G. apply andb_true_iff in G. destruct G as [Gp Gf].
+  split; [exact Gp|]. intros P RT WP PP ST NR NE t' i SA.
+  apply (fresh_from_states c s L p P kvs IV WP ST); auto.
+  destruct kvs; [congruence|]. apply negb_true_iff in Gf. exact Gf.
 Qed.
 
 (** a whole history *)
@@ -259,6 +340,22 @@ Proof.
     pose proof (read_present t (ms_db s) k Pr O SZ) as R.
     destruct (sget (elements (erase t)) k) as [v|]; destruct (walk _ _ _ _); cbn in R; try contradiction; congruence.
   - reflexivity.
+Qed.
+
+Lemma inv_run_changing : forall c ops s L, cfg_valid c = true -> Inv c s L ->
+  ops_valid c s ops = true -> linear_changing c s ops = true ->
+  exists L', Inv c (fold_left (mstep c) ops s) L'.
+Proof.
+  induction ops as [|o ops IH]; intros s L CV IV V G; cbn [fold_left]; [eauto|].
+  cbn [ops_valid] in V. cbn [linear_changing] in G.
+  apply andb_true_iff in V. apply andb_true_iff in G. destruct V as [V1 V2], G as [G1 G2].
+  destruct (inv_step_changing c s L o CV IV V1 G1) as [L1 IV1]. eapply IH; eauto.
+Qed.
+
+Theorem prune_keeps_live_changing : C05_prune_keeps_live_changing.
+Proof.
+  intros c ops CV V G. destruct (inv_run_changing c ops init_mstate [] CV (inv_init c) V G) as [L IV].
+  eapply inv_live_readable; eauto.
 Qed.
 
 Theorem prune_keeps_live_guarded : C05_prune_keeps_live_guarded.
